@@ -186,6 +186,60 @@ func ehReject(what string) module.CheckResult {
 	return module.CheckResult{Reject: true, Reason: &exterrors.SMTPError{Code: 550, EnhancedCode: exterrors.EnhancedCode{5, 7, 1}, Message: "scripted reject at " + what, CheckName: "verif"}}
 }
 
+// ---- scripted modifier --------------------------------------------------------------------------------
+
+type ehModifier struct {
+	name string
+	mu   sync.Mutex
+	// Fail returns the error for a stage ("init","sender","rcpt","body"); nil = pass the value through.
+	Fail func(stage string) error
+	// closes of states opened (typestate of the modifier state)
+	Opened, Closed int
+}
+
+func (m *ehModifier) Name() string           { return "verif_modifier" }
+func (m *ehModifier) InstanceName() string   { return m.name }
+func (m *ehModifier) Init(*config.Map) error { return nil }
+func (m *ehModifier) f(stage string) error {
+	m.mu.Lock()
+	f := m.Fail
+	m.mu.Unlock()
+	if f == nil {
+		return nil
+	}
+	return f(stage)
+}
+func (m *ehModifier) ModStateForMsg(ctx context.Context, meta *module.MsgMetadata) (module.ModifierState, error) {
+	if err := m.f("init"); err != nil {
+		return nil, err
+	}
+	m.mu.Lock()
+	m.Opened++
+	m.mu.Unlock()
+	return &ehModState{m}, nil
+}
+
+type ehModState struct{ m *ehModifier }
+
+func (s *ehModState) RewriteSender(ctx context.Context, from string) (string, error) {
+	return from, s.m.f("sender")
+}
+func (s *ehModState) RewriteRcpt(ctx context.Context, to string) ([]string, error) {
+	if err := s.m.f("rcpt"); err != nil {
+		return nil, err
+	}
+	return []string{to}, nil
+}
+func (s *ehModState) RewriteBody(ctx context.Context, h *textproto.Header, b buffer.Buffer) error {
+	return s.m.f("body")
+}
+func (s *ehModState) Close() error {
+	s.m.mu.Lock()
+	s.m.Closed++
+	s.m.mu.Unlock()
+	return nil
+}
+
 // ---- instances ---------------------------------------------------------------------------------------------
 
 var (
@@ -193,6 +247,7 @@ var (
 	ehT2    = &mon.Target{N: "vt2", Partial: true}
 	ehT3    = &mon.Target{N: "vt3"}
 	ehCheck1 = &ehCheck{name: "vchk"}
+	ehMod1   = &ehModifier{name: "vmod"}
 	ehOnce  sync.Once
 )
 
@@ -202,6 +257,7 @@ func ehRegister() {
 		module.RegisterInstance(ehT2, nil)
 		module.RegisterInstance(ehT3, nil)
 		module.RegisterInstance(ehCheck1, nil)
+		module.RegisterInstance(ehMod1, nil)
 	})
 }
 
